@@ -45,6 +45,12 @@ impl<T> LimitedVec<T> {
         Ok(())
     }
 
+    /// Verification hook: real capacity of the backing allocation, in bytes.
+    #[cfg(feature = "_verif_hooks")]
+    pub fn verif_capacity_bytes(&self) -> usize {
+        self.vec.capacity() * size_of::<T>()
+    }
+
     /// Returns the number of elements in the vector, also referred to as its 'length'.
     #[inline]
     pub fn len(&self) -> usize {
